@@ -1,5 +1,6 @@
 //! C14: cross-type comparison (NumOrd), magnitude comparison (AbsOrd) and NumHash.
 //! case:   `ord A B` | `abs A B` | `hash A`        (A, B typed operand tokens, see `parse`)
+//!         `cmp A B` (two FBig of one type: PartialOrd / Ord, float/src/cmp.rs repr_cmp_same_base)
 //! answer: `ord`  -> `ok <partial: lt|eq|gt|none> <num_cmp: lt|eq|gt|-> <eq><ne><lt><le><gt><ge>`
 //!         `abs`  -> `ok lt|eq|gt`
 //!         `hash` -> `ok <the i128 fed to the hasher, [-]hex> <number of bytes written>`
@@ -182,6 +183,23 @@ fn abs(a: &Val, b: &Val) -> Option<String> {
     None
 }
 
+fn cmp_one<A: PartialOrd + Ord>(a: &A, b: &A) -> String {
+    let p = a.partial_cmp(b);
+    let c = a.cmp(b);
+    if p != Some(c) {
+        return format!("ok partial_cmp-and-cmp-differ {:?} {:?}", p, c);
+    }
+    format!("ok {}", o2s(c))
+}
+
+fn cmp(a: &Val, b: &Val) -> Option<String> {
+    cross!(cmp_one, a, b; [F2] x [F2]);
+    cross!(cmp_one, a, b; [F3] x [F3]);
+    cross!(cmp_one, a, b; [F10] x [F10]);
+    cross!(cmp_one, a, b; [F16] x [F16]);
+    None
+}
+
 macro_rules! each {
     ($f:ident, $a:expr; $($l:ident)*) => { match $a { $( Val::$l(x) => $f(x), )* } };
 }
@@ -194,6 +212,7 @@ fn run(op: &str, a: &[&str]) -> String {
     match op {
         "ord" => ord(&parse(a[0]), &parse(a[1])).unwrap_or_else(|| "err no-impl".into()),
         "abs" => abs(&parse(a[0]), &parse(a[1])).unwrap_or_else(|| "err no-impl".into()),
+        "cmp" => cmp(&parse(a[0]), &parse(a[1])).unwrap_or_else(|| "err no-impl".into()),
         "hash" => hash(&parse(a[0])),
         _ => format!("unknown-op {}", op),
     }
